@@ -2,17 +2,22 @@
 (* Mechanism B for C05: every line of the ndjson trace is one real call of               *)
 (* Document.Check  {bytes, trailing, ok};  TLC re-evaluates the reference recogniser on  *)
 (* the logged bytes and reports each disagreement without blocking the trace.            *)
-EXTENDS Naturals, Sequences, TLC, Json
+EXTENDS Integers, Sequences, TLC, Json
 CONSTANT TraceFile
 R == INSTANCE JsonText WITH MaxDepth <- 100000
 Trace == ndJsonDeserialize(TraceFile)
 VARIABLE l
 Init == l = 1
 Agree(e, v) == v = "unspec" \/ (e.ok <=> v = "accept")
+\* a line may also carry the position of the error (C17): the first byte that cannot continue the text, the last byte at a cut-off end
+WantPos(e) == LET d == R!FirstDead(R!RefInit, e.bytes, e.trailing, 0) IN IF d < Len(e.bytes) THEN d ELSE Len(e.bytes) - 1
+PosOK(e, v) == ~("pos" \in DOMAIN e) \/ e.ok \/ v # "reject" \/ e.bytes = <<>> \/ e.pos < 0 \/ e.pos = WantPos(e)
 Next == /\ l <= Len(Trace)
         /\ LET e == Trace[l]
                v == R!RefVerdict(R!RefRun(R!RefInit, e.bytes, e.trailing))
-           IN  IF Agree(e, v) THEN TRUE ELSE PrintT("@@MISMATCH " \o ToJson([line |-> l, want |-> v]))
+           IN  IF ~Agree(e, v) THEN PrintT("@@MISMATCH " \o ToJson([line |-> l, want |-> v]))
+               ELSE IF ~PosOK(e, v) THEN PrintT("@@MISMATCH " \o ToJson([line |-> l, want |-> "position:" \o ToString(WantPos(e))]))
+               ELSE TRUE
         /\ l' = l + 1
 Spec == Init /\ [][Next]_l
 ==============================================================================
